@@ -17,7 +17,12 @@ fn sample_envelopes() -> Vec<Envelope> {
     let e4: Envelope = Expression::new(bc_envelope::functions::ADD).with_parameter(bc_envelope::parameters::LHS, 2).with_parameter("named", 3).into();
     // a known value that is in no registry (formats by number)
     let e5 = Envelope::new("x").add_assertion(KnownValue::new(4711), KnownValue::new(4712));
-    vec![e1, e2, e3, e4, e5]
+    // leaves tagged as request / response / event whose payload is itself a function, a parameter or a known value: their text
+    // comes from the summarizers registered for the *nested* context
+    use bc_components::tags::{TAG_EVENT, TAG_REQUEST, TAG_RESPONSE};
+    let e6 = Envelope::new(CBOR::to_tagged_value(TAG_REQUEST, CBOR::from(bc_envelope::functions::ADD)));
+    let e7 = Envelope::new("host").add_assertion(CBOR::to_tagged_value(TAG_RESPONSE, CBOR::from(known_values::NOTE)), CBOR::to_tagged_value(TAG_EVENT, CBOR::from(bc_envelope::parameters::LHS)));
+    vec![e1, e2, e3, e4, e5, e6, e7]
 }
 
 fn fnv(s: &str) -> u64 { let mut h = 0xcbf29ce484222325u64; for b in s.bytes() { h ^= b as u64; h = h.wrapping_mul(0x100000001b3); } h }
@@ -83,6 +88,10 @@ pub fn stress_one_focus(threads: usize, seed: u64, warm: bool, calls: usize, for
         Some(f) => OPS.iter().find(|o| **o == f.as_str()).copied(),
         None => if !warm && (seed % 8 == 5 || seed % 8 == 0) { Some(OPS[((seed / 8) % OPS.len() as u64) as usize]) } else { None },
     };
+    // in warmed-up runs: an application thread that formats while it still holds the guard it took for known-value lookups (the
+    // reference it got from the store borrows from that guard); steady-state formatting needs no registry, so this completes
+    let guard_formatter = forced_focus.as_deref() == Some("guardfmt") || (warm && threads >= 2 && seed % 8 == 6);
+    if guard_formatter { println!("note guard-formatter-role"); }
     for t in 0..threads {
         let (es, barrier) = (es.clone(), barrier.clone());
         hs.push(std::thread::spawn(move || {
@@ -107,6 +116,21 @@ pub fn stress_one_focus(threads: usize, seed: u64, warm: bool, calls: usize, for
                     n
                 });
                 out.push(match r { Ok(_) => format!("note {} held-known-values-guard", t), Err(_) => format!("panic {} kv-holder 0", t) });
+            }
+            if guard_formatter && t == threads - 1 {
+                for call in 0..calls {
+                    let op = ["tree_format", "format", "format_flat", "diagnostic_annotated"][call % 4];
+                    let i = if call % 2 == 0 { 4 } else { rng.below(es.len()) };   // the envelope with unregistered known values, often
+                    let r = std::panic::catch_unwind(|| {
+                        let g = known_values::KNOWN_VALUES.get();
+                        let name = g.as_ref().unwrap().name(known_values::NOTE);
+                        let text = run_op_bytes(op, &es[i]);
+                        drop(g);
+                        (name, text)
+                    });
+                    match r { Ok((_, text)) => out.push(format!("call {} {} {} {:016x}", t, op, i, fnv(&text))), Err(_) => out.push(format!("panic {} {} {}", t, op, i)) }
+                }
+                return out;
             }
             for call in 0..calls {
                 // next to a writer, registration is what races with it; in "focus" runs every thread's first call is the same operation
@@ -191,8 +215,11 @@ pub fn campaign(outdir: &str, seed: u64, thorough: bool) {
     let reps = if thorough { 12 } else { 3 };
     for op in OPS { for rep in 0..reps { for threads in [2usize, 8] { let _ = rep; plan.push((threads, false, rng.next() | 7, Some(op.to_string()))); } } }
     for rep in 0..(reps * 2) { plan.push(([2usize, 3, 8][rep % 3], false, rng.next(), Some("holder".to_string()))); }
+    for rep in 0..(reps * 2) { plan.push(([2usize, 4, 8][rep % 3], true, rng.next(), Some("guardfmt".to_string()))); }
     for r in 0..rounds { plan.push(([2usize, 3, 4, 8, 16][r % 5], r % 3 == 2, rng.next(), None)); }
     for (threads, warm, s, focus) in plan {
+        // three runs that never finished are enough to report; every further one costs a full watchdog period
+        if timeouts.len() >= 3 { break; }
         let mut args: Vec<String> = vec!["c20-stress-one".into(), threads.to_string(), s.to_string(), (warm as u8).to_string(), "12".into()];
         if let Some(f) = &focus { args.push(f.clone()); }
         runs += 1;
